@@ -410,7 +410,7 @@ def run(ctx):
             if "sliced_index_array_cpu" in c01_present:
                 def walk(x):
                     nonlocal bad_region
-                    if x["k"] == "Sliced" and (T.range_slice(x["rs"]) is None or T.range_slice(x["cs"]) is None):
+                    if x["k"] == "Sliced" and (x.get("ia") or T.range_slice(x["rs"]) is None or T.range_slice(x["cs"]) is None):
                         bad_region = True
                     for y in (x.get("ms") or ([x["a"]] if isinstance(x.get("a"), dict) else [])):
                         walk(y)
